@@ -19,6 +19,7 @@ import (
 	"strconv"
 	"strings"
 	"sync"
+	"syscall"
 	"time"
 
 	"github.com/rogpeppe/go-internal/testscript"
@@ -28,30 +29,30 @@ import (
 )
 
 type genScript struct {
-	name       string
-	text       string // whole file (script + archive)
-	lines      []line
-	continueOn bool
-	explicit   bool
-	unique     bool
-	custom     bool
-	cli        bool
-	verdict    string // pass / fail / skip
-	failLines  []int  // line numbers that must be reported as failing (first only unless continueOn)
-	probes     []int  // probe ids that must execute, in order
-	final      *model
-	setupFail  bool
-	sig        string
+	name             string
+	text             string // whole file (script + archive)
+	lines            []line
+	continueOn       bool
+	explicit         bool
+	unique           bool
+	custom           bool
+	cli              bool
+	verdict          string // pass / fail / skip
+	failLines        []int  // line numbers that must be reported as failing (first only unless continueOn)
+	probes           []int  // probe ids that must execute, in order
+	final            *model
+	setupFail        bool
+	sig              string
 	skipAfterFailure bool
 }
 
 type scase struct {
-	Kind     string   `json:"kind"`
-	Script   string   `json:"script_file_contents"`
-	Params   string   `json:"params"`
-	Want     string   `json:"model_says"`
-	Got      string   `json:"observed"`
-	Log      string   `json:"log_tail"`
+	Kind   string `json:"kind"`
+	Script string `json:"script_file_contents"`
+	Params string `json:"params"`
+	Want   string `json:"model_says"`
+	Got    string `json:"observed"`
+	Log    string `json:"log_tail"`
 }
 
 var (
@@ -333,13 +334,17 @@ func main() {
 				pr.mu.Unlock()
 			},
 			"okcmd": func(ts *testscript.TestScript, neg bool, args []string) {},
-			"failcmd": func(ts *testscript.TestScript, neg bool, args []string) { ts.Fatalf("failcmd: %s", strings.Join(args, " ")) },
+			"failcmd": func(ts *testscript.TestScript, neg bool, args []string) {
+				ts.Fatalf("failcmd: %s", strings.Join(args, " "))
+			},
 			"mustneg": func(ts *testscript.TestScript, neg bool, args []string) {
 				if !neg {
 					ts.Fatalf("mustneg without !")
 				}
 			},
-			"say": func(ts *testscript.TestScript, neg bool, args []string) { fmt.Fprintln(ts.Stdout(), strings.Join(args, " ")) },
+			"say": func(ts *testscript.TestScript, neg bool, args []string) {
+				fmt.Fprintln(ts.Stdout(), strings.Join(args, " "))
+			},
 		}
 		condFn := func(c string) (bool, error) {
 			switch c {
@@ -531,7 +536,23 @@ func main() {
 			cmd.Env = []string{"PATH=" + bindir, "HOME=/no-home", "TMPDIR=" + dir}
 			var out bytes.Buffer
 			cmd.Stdout, cmd.Stderr = &out, &out
-			err := cmd.Run()
+			// a run that does not end (a changed tree can make a script wait for ever) is given up on
+			// after 45 seconds: inconclusive for this case, the other cases still get their verdicts
+			cmd.SysProcAttr = &syscall.SysProcAttr{Setpgid: true}
+			var err error
+			if err = cmd.Start(); err == nil {
+				done := make(chan error, 1)
+				go func() { done <- cmd.Wait() }()
+				select {
+				case err = <-done:
+				case <-time.After(45 * time.Second):
+					syscall.Kill(-cmd.Process.Pid, syscall.SIGKILL)
+					<-done
+					r.Inconclusive(fmt.Sprintf("the testscript command did not end within 45 seconds on %v", files))
+					os.RemoveAll(dir)
+					continue
+				}
+			}
 			code := 0
 			if ee, ok := err.(*exec.ExitError); ok {
 				code = ee.ExitCode()
